@@ -259,10 +259,15 @@ pub fn st2_deposit_events(rec: &mut Rec, r: &mut StdRng, run: u64, n: usize) {
         let tok = gen::log_uniform(r, 1, 1u128 << 40);
         let pa = tok * pow10(d[0]);
         let pb = match r.gen_range(0..4) { 0 => tok, 1 => (tok / 3).max(1), _ => gen::log_uniform(r, 1, 1u128 << 40) } * pow10(d[1]);
-        let (xa, xb) = match r.gen_range(0..5) {
+        // also deposits far larger than the pool (up to 2^100 base units), one-sided or nearly so
+        let top = 1u128 << 100;
+        let (xa, xb) = match r.gen_range(0..8) {
             0 => (gen::log_uniform(r, 1, pa), 0),
             1 => (0, gen::log_uniform(r, 1, pb)),
             2 => (pa / 10 + 1, pb / 10 + 1),
+            3 => (gen::log_uniform(r, pa, top.max(pa)), r.gen_range(0..2)),
+            4 => (r.gen_range(0..2), gen::log_uniform(r, pb, top.max(pb))),
+            5 => (gen::log_uniform(r, 1, top), gen::log_uniform(r, 1, top)),
             _ => (gen::log_uniform(r, 1, pa), gen::log_uniform(r, 1, pb)),
         };
         // reachable supplies: the first deposit mints D - 2000 and nothing afterwards lets the supply outgrow D
@@ -302,7 +307,7 @@ pub fn st3_events(rec: &mut Rec, r: &mut StdRng, run: u64, n: usize) {
                     "res": res, "out": {"dy": s(dy)}, "res2": res2, "out2": {"dx": s(dx)}}));
             }
             6..=8 => {
-                let dep = |r: &mut StdRng, p: u128| -> u128 { match r.gen_range(0..4) { 0 => 0, 1 => p / 10 + 1, _ => gen::log_uniform(r, 1, p) } };
+                let dep = |r: &mut StdRng, p: u128| -> u128 { match r.gen_range(0..6) { 0 => 0, 1 => p / 10 + 1, 2 => gen::log_uniform(r, p, top.max(p)), 3 => gen::log_uniform(r, 1, top), _ => gen::log_uniform(r, 1, p) } };
                 let (xa, xb, xc) = (dep(r, src), dep(r, dst), dep(r, uns));
                 // reachable supplies: the first deposit mints D - 3000 and nothing afterwards lets the supply outgrow D
                 let d0c = catch_unwind(AssertUnwindSafe(|| curve.compute_d(Uint128::new(src), Uint128::new(dst), Uint128::new(uns)))).ok().flatten()
